@@ -12,14 +12,15 @@ pub(crate) mod verif_wrap_x {
 
     #[derive(Clone, Copy)]
     #[repr(align(16))]
-    pub struct Rec { magic: u64, nkey: usize, kptr: *const u8, klen: usize, nmac: usize, dptr: *const u8, dlen: usize, kid: *const u8, out: [u8; 32] }
+    pub struct Rec { magic: u64, nkey: usize, kptr: *const u8, klen: usize, nmac: usize, dptr: *const u8, dlen: usize, kid: *const u8, out: [u8; 32], ki: usize, kb: u8, di: usize, db: u8 }
     // one struct static with a magic field: Kani 0.68 aliases all-zero constants with all-zero statics (DESIGN 7.9)
-    pub static mut R: Rec = Rec { magic: 0x5eed_c19c_0000_0001, nkey: 0, kptr: core::ptr::null(), klen: 0, nmac: 0, dptr: core::ptr::null(), dlen: 0, kid: core::ptr::null(), out: [0; 32] };
+    pub static mut R: Rec = Rec { magic: 0x5eed_c19c_0000_0001, nkey: 0, kptr: core::ptr::null(), klen: 0, nmac: 0, dptr: core::ptr::null(), dlen: 0, kid: core::ptr::null(), out: [0; 32], ki: 0, kb: 0, di: 0, db: 0 };
 
     /// E-HMAC (1): the key constructor records WHICH bytes it was given; the key object it returns is opaque.
     pub fn key_rec(slice: &[u8]) -> Result<HK, UnknownCryptoError> {
         unsafe {
             R.nkey += 1; R.kptr = slice.as_ptr(); R.klen = slice.len();
+            if R.ki < slice.len() { R.kb = slice[R.ki]; }
             Ok(core::mem::zeroed::<HK>())
         }
     }
@@ -27,6 +28,7 @@ pub(crate) mod verif_wrap_x {
     pub fn mac_rec(sk: &HK, data: &[u8]) -> Result<HT, UnknownCryptoError> {
         unsafe {
             R.nmac += 1; R.dptr = data.as_ptr(); R.dlen = data.len(); R.kid = sk as *const HK as *const u8;
+            if R.di < data.len() { R.db = data[R.di]; }
             let o: [u8; 32] = kani::any();
             R.out = o;
             HT::from_slice(&o)
@@ -35,6 +37,7 @@ pub(crate) mod verif_wrap_x {
     pub fn digest_rec(data: &[u8]) -> Result<OD, UnknownCryptoError> {
         unsafe {
             R.nmac += 1; R.dptr = data.as_ptr(); R.dlen = data.len();
+            if R.di < data.len() { R.db = data[R.di]; }
             let o: [u8; 32] = kani::any();
             R.out = o;
             OD::from_slice(&o)
@@ -59,12 +62,16 @@ pub(crate) mod verif_wrap_x {
         let data: [u8; 16] = kani::any();
         let (kl, dl): (usize, usize) = (kani::any(), kani::any());
         kani::assume(kl <= 140 && dl <= 16);
+        // content, not address: the byte at a solver-chosen index of what the primitive receives equals the caller's
+        let (ki, di): (usize, usize) = (kani::any(), kani::any());
+        kani::assume(ki < 140 && di < 16);
+        unsafe { R.ki = ki; R.di = di; }
         let out = hmac_sha256(&key[..kl], &data[..dl]);
         let c = unsafe { R };
         assert!(c.magic == 0x5eed_c19c_0000_0001, "[ENV] recorder state intact");
         assert!(c.nkey == 1 && c.nmac == 1, "[C19] one key, one MAC computation");
-        assert!(c.kptr == key.as_ptr() && c.klen == kl, "[C19,C06] the HMAC key is the caller's key, whole (keys longer than 64 bytes included)");
-        assert!(c.dptr == data.as_ptr() && c.dlen == dl, "[C19,C06] the MAC is computed over the caller's data, whole");
+        assert!(c.klen == kl && (ki >= kl || c.kb == key[ki]), "[C19,C06] the HMAC key is the caller's key, whole (keys longer than 64 bytes included)");
+        assert!(c.dlen == dl && (di >= dl || c.db == data[di]), "[C19,C06] the MAC is computed over the caller's data, whole");
         assert!(same32(&out, &c.out), "[C19] returns the primitive's 32-byte tag unchanged");
         kani::cover!(kl == 0 && dl == 0);
         kani::cover!(kl == 65);
@@ -79,13 +86,60 @@ pub(crate) mod verif_wrap_x {
         let data: [u8; 140] = kani::any();
         let dl: usize = kani::any();
         kani::assume(dl <= 140);
+        let di: usize = kani::any();
+        kani::assume(di < 140);
+        unsafe { R.di = di; }
         let out = sha256(&data[..dl]);
         let c = unsafe { R };
         assert!(c.magic == 0x5eed_c19c_0000_0001, "[ENV] recorder state intact");
-        assert!(c.nmac == 1 && c.dptr == data.as_ptr() && c.dlen == dl, "[C19] one digest over the caller's data, whole (block-boundary lengths 55/56/64/65 included)");
+        assert!(c.nmac == 1 && c.dlen == dl && (di >= dl || c.db == data[di]), "[C19] one digest over the caller's data, whole (block-boundary lengths 55/56/64/65 included)");
         assert!(same32(&out, &c.out), "[C19] returns the primitive's 32-byte digest unchanged");
         kani::cover!(dl == 0);
         kani::cover!(dl == 64);
         kani::cover!(dl == 140);
+    }
+
+    // ---- public-key derivation -----------------------------------------------------------------
+    use orion::hazardous::ecc::x25519::{PrivateKey as XS, PublicKey as XP};
+    pub fn xs_rec(slice: &[u8]) -> Result<XS, UnknownCryptoError> {
+        unsafe { R.nkey += 1; R.kptr = slice.as_ptr(); R.klen = slice.len(); if R.ki < slice.len() { R.kb = slice[R.ki]; } Ok(core::mem::zeroed::<XS>()) }
+    }
+    pub static mut XFAIL: (u64, bool) = (0x5eed_c19c_0000_0002, false);
+    pub fn xp_rec<'a>(sk: &'a XS) -> Result<XP, UnknownCryptoError> where 'a: 'a {
+        unsafe {
+            R.nmac += 1;
+            if XFAIL.1 { return Err(UnknownCryptoError); }
+            let o: [u8; 32] = kani::any();
+            // orion keeps a public key as a field element: what comes back out is its canonical encoding
+            let p = XP::from(o);
+            R.out = p.to_bytes();
+            Ok(p)
+        }
+    }
+
+    /// C19/C05: x25519_derive_public(sk) and PrivateKey::to_public hand exactly the 32 private-key bytes to orion's
+    /// base-point multiplication and return its 32-byte result unchanged; a refusal becomes DhError.
+    #[kani::proof]
+    #[kani::stub(orion::hazardous::ecc::x25519::PrivateKey::from_slice, xs_rec)]
+    #[kani::stub(<orion::hazardous::ecc::x25519::PublicKey as core::convert::TryFrom<&orion::hazardous::ecc::x25519::PrivateKey>>::try_from, xp_rec)]
+    #[kani::unwind(40)]
+    pub fn c19_derive_public_plumbing() {
+        let k: [u8; 32] = kani::any();
+        let fail: bool = kani::any();
+        let ki: usize = kani::any();
+        kani::assume(ki < 32);
+        unsafe { XFAIL.1 = fail; R.ki = ki; }
+        let r = x25519_derive_public(&k);
+        let c = unsafe { R };
+        assert!(c.magic == 0x5eed_c19c_0000_0001 && unsafe { XFAIL.0 } == 0x5eed_c19c_0000_0002, "[ENV] recorder state intact");
+        assert!(c.nkey == 1 && c.klen == 32 && c.kb == k[ki], "[C19,C05] the scalar handed to orion is the caller's private key, whole");
+        assert!(c.nmac == 1, "[C19] one base-point multiplication");
+        match &r {
+            Ok(v) => assert!(!fail && same32(v, &c.out), "[C19,C05] the public key returned is the primitive's result, unchanged"),
+            Err(_) => assert!(fail, "[C19] an error only if the primitive refused"),
+        }
+        kani::cover!(r.is_ok());
+        kani::cover!(r.is_err());
+        core::mem::forget(r);
     }
 }
